@@ -7,12 +7,12 @@ predicate: Uquic/Spec/H3FieldsWF.lean (RFC 9114 §4.2–4.3). Every theorem quan
 lists `fs` (arbitrary bytes in names and values, any length), all limits, both directions, and all
 answers `ext` of `strings.ToLower` on non-ASCII names.
 -/
-import Uquic.Proofs.FieldsParse
+import Uquic.Proofs.FieldsWriter3
 import Uquic.Proofs.FieldsTrailers
 
 namespace Uquic.Props.C19
-open Uquic.Model.H3.Fields Uquic.Gen.H3Fields Uquic.Proofs.Fields
-open Uquic.Spec.H3Fields (WellFormed WellFormedG PseudoUnique ClNumeric)
+open Uquic.Model.H3.Fields Uquic.Model.H3.Writer Uquic.Gen.H3Fields Uquic.Proofs.Fields
+open Uquic.Spec.H3Fields (WellFormed WellFormedG PseudoUnique ClNumeric isPseudoName)
 open Uquic.Spec.H3FieldsMon (requestRules responseRules)
 
 abbrev Field := List Nat × List Nat
@@ -105,6 +105,152 @@ theorem malformed_rejected (ext : List Nat → Bool) (isReq : Bool) (lim : Int) 
   cases hp : parseHeaders ext isReq lim fs with
   | error e => exact ⟨e, rfl⟩
   | ok h => exact absurd (accept_sound_partial ext isReq lim hlim fs h hp) hbad
+
+/-! ## 1b. completeness: the accepted sections are characterised exactly -/
+
+/-- parseHeaders accepts EXACTLY the sections that satisfy the reference predicate (with the empty
+    Content-Length weakening of the unchanged code) and whose Content-Length fits 63 bits. -/
+theorem accept_iff (ext : List Nat → Bool) (isReq : Bool) (lim : Int) (hlim : 0 ≤ lim) (fs : List Field) :
+    (∃ h, parseHeaders ext isReq lim fs = .ok h) ↔ (WellFormedG true isReq lim fs ∧ ClFits fs) := by
+  constructor
+  · rintro ⟨h, hp⟩
+    exact ⟨accept_sound_partial ext isReq lim hlim fs h hp, fits_of_ok ext isReq lim fs h hp⟩
+  · rintro ⟨wf, hfit⟩
+    exact accept_complete_of_wf ext isReq lim fs wf hfit
+
+/-- every well-formed section (full reference predicate) with a Content-Length below 2^63 is accepted -/
+theorem accept_complete (ext : List Nat → Bool) (isReq : Bool) (lim : Int) (fs : List Field)
+    (wf : WellFormed isReq lim fs) (hfit : ClFits fs) : ∃ h, parseHeaders ext isReq lim fs = .ok h :=
+  accept_complete_of_wf ext isReq lim fs
+    { wf with cl_numeric := fun f hf hn => ⟨Or.inr rfl, (wf.cl_numeric f hf hn).2⟩ } hfit
+
+/-! ## 4. writer_parser_agree -/
+
+/-- For every request the writer's own validation accepts (`encodeHeaders ua w = ok fs`) and that is a
+    valid net/http message (`ValidRequest`: token method, URL parts without control bytes, token
+    trailer keys, int64 Content-Length and — NOT enforced by the writer, finding C19-request-te —
+    `TE` carrying only "trailers"), the emitted section is well formed (full reference predicate), the
+    parser accepts it under every limit ≥ its size, and it decodes to the same fields: method, authority
+    (= punycoded host), path, scheme, protocol, Content-Length, and the regular fields exactly as emitted
+    with canonicalised keys. QPACK is a parameter: `fs` is what the encoder is given and what the decoder
+    must return (round-trip contract, sampled by the driver). -/
+theorem writer_parser_agree (ext : List Nat → Bool) (ua : List Nat) (w : WReq) (fs : List Field)
+    (hv : ValidRequest ua w) (hw : encodeHeaders ua w = .ok fs) (lim : Int)
+    (hlim : Uquic.Spec.H3Fields.sectionSize fs ≤ lim) :
+    WellFormed true lim fs ∧
+    ∃ h host, parseHeaders ext true lim fs = .ok h ∧ w.puny = some host ∧
+      h.method = w.method ∧ h.authority = host ∧
+      h.path = (if needPath w then emittedPath w host else []) ∧
+      h.scheme = (if needPath w then w.scheme else []) ∧
+      h.protocol = (if isExtendedConnect w then w.proto else []) ∧
+      h.status = [] ∧
+      (shouldSendCL w.method w.contentLength = true →
+        h.contentLength = w.contentLength ∧
+        h.headers = hdrSet (decodedHeaders (regularPart ua w)) kContentLength (fmtNat w.contentLength.toNat)) ∧
+      (shouldSendCL w.method w.contentLength = false →
+        h.contentLength = -1 ∧ h.headers = decodedHeaders (regularPart ua w)) := by
+  obtain ⟨host, hpuny, hvh, hhdr, _, rfl⟩ := encode_decompose ua w fs hw
+  obtain ⟨hP1, hP2⟩ := pseudoPart_ok w host (emittedPath w host) (host_value host hvh) (token_value _ hv.method)
+    (emittedPath_bytes w host hv.uri) (value_bytes_of_valid _ hv.scheme) (value_bytes_of_valid _ hv.proto)
+  have hR := regularPart_ok ua w hv hhdr
+  obtain ⟨f1, f2, f3⟩ := fmtNat_spec w.contentLength.toNat
+  have hdig : ∀ b ∈ fmtNat w.contentLength.toNat, Uquic.Spec.H3Fields.isDigitByte b = true :=
+    fun b hb => List.all_eq_true.mp f2 b hb
+  have wf : WellFormed true lim (pseudoPart w host (emittedPath w host) ++ regularPart ua w) :=
+    wf_of_parts true lim _ _ (fmtNat w.contentLength.toNat) hP1 hP2 hR ⟨f1, hdig⟩ hlim
+  -- every Content-Length field of the section is the emitted one
+  have hall : ∀ f ∈ pseudoPart w host (emittedPath w host) ++ regularPart ua w, f.1 = nContentLength →
+      f.2 = fmtNat w.contentLength.toNat := by
+    intro f hf hn
+    rcases List.mem_append.mp hf with hf | hf
+    · exact absurd hn (pseudo_not_cl _ (hP1 f hf).1)
+    · rcases hR f hf with h | ⟨_, h⟩
+      · exact absurd hn h.2.2.2.2.2.2
+      · exact h
+  have hfit : ClFits (pseudoPart w host (emittedPath w host) ++ regularPart ua w) := by
+    intro f hf hn
+    rw [hall f hf hn, f3]
+    have := hv.cl
+    omega
+  obtain ⟨h, hp⟩ := accept_complete ext true lim _ wf hfit
+  refine ⟨wf, h, host, hp, hpuny, ?_⟩
+  obtain ⟨vp, vm, va, vpr, vs, vst⟩ := parse_pseudo_values ext true lim _ false h hp
+  have hRnp : ∀ g ∈ regularPart ua w, isPseudoName g.1 = false := by
+    intro g hg; rcases hR g hg with h | ⟨h, _⟩
+    · exact h.1
+    · rw [h]; exact cl_name_facts.1
+  have noR : ∀ n, isPseudoName n = true → ∀ g ∈ regularPart ua w, g.1 ≠ n := by
+    intro n hn g hg heq; rw [← heq, hRnp g hg] at hn; cases hn
+  obtain ⟨q1, q2, q3, q4, q5⟩ := pseudoPart_values w host (emittedPath w host)
+  have names := pseudo_names_facts
+  have hstatus : fieldValue (pseudoPart w host (emittedPath w host) ++ regularPart ua w) nStatus = [] := by
+    apply fieldValue_none
+    intro g hg heq
+    rcases List.mem_append.mp hg with hg | hg
+    · have := (hP1 g hg).2.1
+      rw [heq] at this; revert this; decide
+    · exact noR nStatus (by decide) g hg heq
+  refine ⟨?_, ?_, ?_, ?_, ?_, ?_, ?_, ?_⟩
+  · rw [vm, fieldValue_append_left _ _ _ (noR _ names.2.1), q1]
+  · rw [va, fieldValue_append_left _ _ _ (noR _ names.1), q2]
+  · rw [vp, fieldValue_append_left _ _ _ (noR _ names.2.2.1), q3]
+  · rw [vs, fieldValue_append_left _ _ _ (noR _ names.2.2.2.1), q4]
+  · rw [vpr, fieldValue_append_left _ _ _ (noR _ names.2.2.2.2.1), q5]
+  · rw [vst, hstatus]
+  · intro hsend
+    have hex : ∃ f ∈ pseudoPart w host (emittedPath w host) ++ regularPart ua w, f.1 = nContentLength :=
+      ⟨(nContentLength, fmtNat w.contentLength.toNat), by simp [regularPart, hsend], rfl⟩
+    obtain ⟨r1, r2⟩ := (parse_cl_result ext true lim _ h hp _ f1 hall).1 hex
+    rw [decodedHeaders_parts _ _ (fun f hf => (hP1 f hf).1)] at r2
+    refine ⟨?_, r2⟩
+    rw [r1, f3]
+    have : 0 ≤ w.contentLength := by
+      simp only [shouldSendCL] at hsend
+      split at hsend
+      · omega
+      · split at hsend
+        · cases hsend
+        · omega
+    omega
+  · intro hsend
+    have hno : ∀ f ∈ pseudoPart w host (emittedPath w host) ++ regularPart ua w, f.1 ≠ nContentLength := by
+      intro f hf hn
+      rcases List.mem_append.mp hf with hf | hf
+      · exact pseudo_not_cl _ (hP1 f hf).1 hn
+      · have hreg := regularPart_ok ua w hv hhdr f hf
+        rcases hreg with h | ⟨_, _⟩
+        · exact h.2.2.2.2.2.2 hn
+        · -- the content-length entry is absent when shouldSendCL is false
+          simp only [regularPart, hsend, Bool.false_eq_true, if_false, List.append_nil, List.mem_append] at hf
+          obtain ⟨t1, t2, t3, t4, t5, t6, t7, t8, t9, t10, t11, t12, _⟩ := const_names
+          rcases hf with ((hf | hf) | hf) | hf
+          · split at hf
+            · simp only [List.mem_singleton] at hf; subst hf; exact t10 hn
+            · simp at hf
+          · obtain ⟨kv, _, h1, _, h3⟩ := headerFields_mem w.headers f hf
+            exact h3 (h1 ▸ hn ▸ cl_in_skipped)
+          · split at hf
+            · simp only [List.mem_singleton] at hf; subst hf; exact t11 hn
+            · simp at hf
+          · split at hf
+            · simp only [List.mem_singleton] at hf; subst hf; exact t12 hn
+            · simp at hf
+    obtain ⟨r1, r2⟩ := (parse_cl_result ext true lim _ h hp _ f1 hall).2 hno
+    rw [decodedHeaders_parts _ _ (fun f hf => (hP1 f hf).1)] at r2
+    exact ⟨r1, r2⟩
+
+/-- hypotheses of `writer_parser_agree` are satisfiable: a POST with headers, a cookie pair and a trailer -/
+example : ∃ fs, encodeHeaders defaultUserAgent
+    { method := B "POST", proto := B "HTTP/1.1", puny := some (B "example.com"), reqURI := B "/a?b=c", scheme := B "https",
+      headers := [(B "Cookie", [B "a=1", B "b=2"]), (B "Connection", [B "close"]), (B "Te", [B "trailers"])],
+      trailerKeys := [B "X-Checksum"], contentLength := 42, gzip := true } = .ok fs ∧ fs.length = 11 := ⟨_, rfl, rfl⟩
+
+/-- the finding behind hypothesis `ValidRequest.te`: `TE: gzip` is emitted by the writer and the
+    parser rejects the emitted section -/
+theorem writer_te_witness : ∃ w fs, encodeHeaders defaultUserAgent w = .ok fs ∧
+    errOf (parseHeaders (fun _ => true) true 100000 fs) = some .te :=
+  ⟨{ method := B "GET", proto := B "HTTP/1.1", puny := some (B "example.com"), reqURI := B "/", scheme := B "https",
+     headers := [(B "Te", [B "gzip"])], trailerKeys := [], contentLength := 0, gzip := false }, _, rfl, by decide⟩
 
 /-! ## 2. reject_maps_to_error -/
 
